@@ -12,6 +12,7 @@ import (
 
 	"github.com/GoogleCloudPlatform/grpc-gcp-go/grpcgcp"
 	"google.golang.org/grpc"
+	"google.golang.org/grpc/attributes"
 	"google.golang.org/grpc/balancer"
 	"google.golang.org/grpc/connectivity"
 	"google.golang.org/grpc/resolver"
@@ -37,8 +38,9 @@ type Config struct {
 type Op struct {
 	K string `json:"k"` // resolve | reserr | state | pick | done | adv | failnew | cancel
 
-	Addrs int `json:"addrs,omitempty"` // resolve: 0=A 1=B 2=C 3=empty
-	Cfg   int `json:"cfg,omitempty"`   // resolve: 0=case config 1=nil 2=foreign type 3=alternative config
+	Addrs int  `json:"addrs,omitempty"` // resolve: index into addrSets (0=A 1=B 2=C 3=empty 4..8=variants that differ only in attributes / server name / metadata)
+	Cfg   int  `json:"cfg,omitempty"`   // resolve: 0=case config 1=nil 2=foreign type 3=alternative config
+	SC    bool `json:"sc,omitempty"`    // resolve: the resolver result also carries a (non-nil) service config parse result
 
 	Sel   int  `json:"sel,omitempty"`     // state: 0=pool slot 1=replacement 2=removed conn 3=never-seen conn 4=replacement of the home slot of Key 5=home slot of Key 6=stand-in slot of Key
 	Idx   int  `json:"idx,omitempty"`     // state/adv: index; done/cancel: call index (-1 = most recent)
@@ -195,10 +197,24 @@ type fsc struct {
 	foreign  bool // never created by the balancer
 }
 
+// astr is the identity of an address list: everything a resolver can put into an address counts.
 func astr(a []resolver.Address) string {
 	s := make([]string, 0, len(a))
 	for _, x := range a {
-		s = append(s, x.Addr)
+		e := x.Addr
+		if x.ServerName != "" {
+			e += "|sn=" + x.ServerName
+		}
+		if x.Attributes != nil {
+			e += "|attr=" + x.Attributes.String()
+		}
+		if x.BalancerAttributes != nil {
+			e += "|battr=" + x.BalancerAttributes.String()
+		}
+		if x.Metadata != nil {
+			e += fmt.Sprintf("|md=%v", x.Metadata)
+		}
+		s = append(s, e)
 	}
 	return strings.Join(s, ",")
 }
@@ -243,9 +259,14 @@ func (c *fcc) UpdateState(s balancer.State)          { c.pubs = append(c.pubs, s
 func (c *fcc) ResolveNow(resolver.ResolveNowOptions) {}
 func (c *fcc) Target() string                        { return "fake" }
 
-var addrSets = [][]resolver.Address{{{Addr: "A"}}, {{Addr: "B1"}, {Addr: "B2"}}, {{Addr: "C"}}, nil}
+var addrSets = [][]resolver.Address{{{Addr: "A"}}, {{Addr: "B1"}, {Addr: "B2"}}, {{Addr: "C"}}, nil,
+	// the same backend as list 0, differing only in what else a resolver attaches to an address
+	{{Addr: "A", Attributes: attributes.New("zone", "z1")}}, {{Addr: "A", Attributes: attributes.New("zone", "z2")}},
+	{{Addr: "A", ServerName: "a.example.com"}}, {{Addr: "A", BalancerAttributes: attributes.New("weight", 3)}}, {{Addr: "B1"}, {Addr: "B2", Metadata: "m"}}}
 
-func addrName(i int) string { return astr(addrSets[((i%4)+4)%4]) }
+func addrIdx(i int) int { return ((i % len(addrSets)) + len(addrSets)) % len(addrSets) }
+
+func addrName(i int) string { return astr(addrSets[addrIdx(i)]) }
 
 type foreignCfg struct {
 	serviceconfig.LoadBalancingConfig
